@@ -315,6 +315,14 @@ static WATCHDOG_ON: AtomicBool = AtomicBool::new(false);
 static DESC_LEN: AtomicUsize = AtomicUsize::new(0);
 static mut DESC: [u8; 512] = [0u8; 512];
 
+#[cfg(miri)]
+fn now_ms() -> u64 {
+    use std::sync::OnceLock;
+    static T0: OnceLock<std::time::Instant> = OnceLock::new();
+    T0.get_or_init(std::time::Instant::now).elapsed().as_millis() as u64
+}
+
+#[cfg(not(miri))]
 fn now_ms() -> u64 {
     let mut ts = libc::timespec {
         tv_sec: 0,
@@ -324,6 +332,12 @@ fn now_ms() -> u64 {
     ts.tv_sec as u64 * 1000 + ts.tv_nsec as u64 / 1_000_000
 }
 
+#[cfg(miri)]
+pub fn thread_cpu_s() -> f64 {
+    now_ms() as f64 / 1000.0
+}
+
+#[cfg(not(miri))]
 pub fn thread_cpu_s() -> f64 {
     let mut ts = libc::timespec {
         tv_sec: 0,
@@ -415,6 +429,10 @@ extern "C" fn crash_handler(sig: libc::c_int) {
     unsafe { libc::_exit(98) };
 }
 
+#[cfg(miri)]
+pub fn install_crash_handler() {}
+
+#[cfg(not(miri))]
 pub fn install_crash_handler() {
     unsafe {
         // alternate stack so that stack overflows can be reported
@@ -445,6 +463,9 @@ pub fn install_crash_handler() {
 /// Starts the per-case wall-clock watchdog. When a case exceeds the budget the process prints
 /// `MON-TIMEOUT case=<id>` and exits with status 97; the driver re-runs that case in isolation.
 pub fn start_watchdog() {
+    if cfg!(miri) {
+        return;
+    }
     if WATCHDOG_ON.swap(true, Ordering::SeqCst) {
         return;
     }
